@@ -3,7 +3,7 @@
     [join_colon], [colon_free], [rejected]) is in model/PeriodStrSpec.v; [show_period],
     [show_instant], [parse_period], [parse_instant], [py_int] are the functions of
     model/PeriodStr.v that the correspondence check runs against the implementation. *)
-From Coq Require Import ZArith List Bool String.
+From Coq Require Import ZArith List Bool Ascii String.
 From Verif Require Import Base Cal Tables Period PeriodStr PeriodStrSpec PeriodStrProofs.
 Import ListNotations.
 Open Scope string_scope.
